@@ -84,6 +84,7 @@ type StrV struct {
 	IsB   bool
 	IsArr bool
 	fmtLit bool
+	fullKey bool // iterator key that already includes the iterated prefix
 	FromStore bool // read from the arbitrary pre-state of a store (invariant I2: written by the module's setters)
 	Nil   bool
 	Boxed Val
